@@ -590,6 +590,8 @@ def battery(prop, thorough=False):
     if prop == "C02":
         out = [R("{% tablerow x in a cols:0 %}{{x}}{% endtablerow %}", {"no_panic": True}, {"a": [1, 2]}),
                R("{% tablerow x in a cols:c %}{{x}}{% endtablerow %}", {"no_panic": True}, {"a": [1, 2], "c": 0}),
+               R("{% tablerow x in a cols:c %}{{x}}{% endtablerow %}", {"no_panic": True}, {"a": [1, 2], "c": I64_MIN}),
+               R("{% tablerow x in a cols:c %}{{x}}{% endtablerow %}", {"no_panic": True}, {"a": [1, 2], "c": -1}),
                R("{% cycle n: %}", {"no_panic": True}), R("{% for i in (1..3) %}{% cycle 'g': %}{% endfor %}", {"no_panic": True}),
                R("{{ 99999999999999999999 }}", {"no_panic": True}, None, "C01 territory (parse_literal); reported only if it panics at render"),
                R("{{ 'abc' | slice: 1, 9223372036854775807 }}", {"no_panic": True}),
